@@ -315,6 +315,11 @@ func c20BetaRollout(varyBlocks bool, mask int) *v1beta1.Rollout {
 		// the two annotation keys v1alpha1 reserves to carry style / traffic-routing reference are not free user annotations
 		verifrt.Assume(k != RolloutStyleAnnotation && k != TrafficRoutingAnnotation)
 		r.Annotations = map[string]string{k: verifrt.String("anno.v")}
+		// a style annotation left over from an earlier v1alpha1 write; v1beta1 ignores it (the style is
+		// spec.strategy.canary.enableExtraWorkloadForCanary), so it must not change the meaning on the way back
+		if verifrt.Bool("hasStaleStyle") {
+			r.Annotations[RolloutStyleAnnotation] = c20Styles[verifrt.IntRange("staleStyle", 0, len(c20Styles)-1)]
+		}
 	}
 	r.Spec.WorkloadRef = v1beta1.ObjectRef{APIVersion: verifrt.String("wr.apiVersion"), Kind: verifrt.String("wr.kind"), Name: verifrt.String("wr.name")}
 	r.Spec.Disabled = verifrt.Bool("disabled")
